@@ -320,8 +320,8 @@ func (cr *checkRun) boundedFallback() {
 			continue
 		}
 		li := analyzeLoops(fn)
-		if len(li.isHeader) == 0 {
-			continue
+		if len(li.isHeader) == 0 && len(ct.Loops) == 0 {
+			continue // no loop here and none in the contract: nothing the stand-in would do differently
 		}
 		// nested loops multiply: one entry fewer per loop head when a loop contains another
 		nfn := n
@@ -364,21 +364,44 @@ func (cr *checkRun) boundedFallback() {
 		wg.Add(1)
 		go func(i int, rep *FuncReport, why string, n int) {
 			defer wg.Done()
-			r2, w2 := verifyFunctionBounded(cr.l, cr.specs, rep.Contract, rep.Alias, n)
-			if r2.Unsupported != "" {
-				if os.Getenv("GOAVC_DEBUG") != "" {
-					fmt.Fprintf(os.Stderr, "bounded stand-in of %s: %s\n", rep.Name, r2.Unsupported)
-				}
-				return
-			}
-			solveAll(w2, r2.Obls, cr.timeout, cr.seed)
-			for _, o := range r2.Obls {
-				if !o.ok() && !isKnown(o) {
+			// the bound is lowered only when the unrolled body exceeds the generation budget
+			var r2 *FuncReport
+			var w2 *World
+			for ; n >= 2; n-- {
+				r2, w2 = verifyFunctionBounded(cr.l, cr.specs, rep.Contract, rep.Alias, n)
+				if r2.Unsupported != "" {
 					if os.Getenv("GOAVC_DEBUG") != "" {
-						fmt.Fprintf(os.Stderr, "bounded stand-in of %s: %s %s\n", rep.Name, o.Name, o.Result.Status)
+						fmt.Fprintf(os.Stderr, "bounded stand-in of %s (bound %d): %s\n", rep.Name, n, r2.Unsupported)
+					}
+					if strings.Contains(r2.Unsupported, "generation budget") {
+						continue
 					}
 					return
 				}
+				solveAll(w2, r2.Obls, cr.timeout, cr.seed)
+				refuted, undecided := false, false
+				for _, o := range r2.Obls {
+					if !o.ok() && !isKnown(o) {
+						if os.Getenv("GOAVC_DEBUG") != "" {
+							fmt.Fprintf(os.Stderr, "bounded stand-in of %s (bound %d): %s %s\n", rep.Name, n, o.Name, o.Result.Status)
+						}
+						if o.Result.Status == "sat" {
+							refuted = true
+						} else {
+							undecided = true
+						}
+					}
+				}
+				if refuted || undecided {
+					// an obligation the solvers do not settle at this bound stays undecided: lowering the bound until
+					// they do would explore less and less (it hid a seeded interleaving of validation and
+					// finalisation that needs two roots to show)
+					return
+				}
+				break
+			}
+			if n < 2 {
+				return
 			}
 			r2.BoundedWhy = why
 			r2.Renamed = rep.Renamed
